@@ -559,17 +559,26 @@ pub fn process<I: BufRead, O: Write>(
                         });
                     }
                     let buf = &caps[3];
-                    let mut value = context.replace_all(buf);
                     if caps.get(2).is_none() {
+                        let value = context.replace_all(buf);
                         context.define(mcro, value);
                     } else {
                         let mut rex = format!("\\b{}\\(", mcro);
                         let params = caps.get(2).unwrap().as_str();
+                        // A parameter hides a macro of the same name: take the parameters out of
+                        // the body before the already defined macros are expanded in it
+                        let mut value = buf.to_string();
                         if !params.is_empty() {
-                            for v in caps.get(2).unwrap().as_str().split(',') {
+                            for (k, v) in params.split(',').enumerate() {
+                                let re = Regex::new(&format!("\\b{}\\b", v.trim_start())).unwrap();
+                                value = re.replace_all(&value, format!("\u{1}{}\u{1}", k)).to_string();
+                            }
+                        }
+                        let mut value = context.replace_all(&value);
+                        if !params.is_empty() {
+                            for (k, v) in caps.get(2).unwrap().as_str().split(',').enumerate() {
                                 let vx = v.trim_start();
-                                let re = Regex::new(&format!("\\b{}\\b", vx)).unwrap();
-                                value = re.replace_all(&value, format!("$${}", vx)).to_string();
+                                value = value.replace(&format!("\u{1}{}\u{1}", k), &format!("${}", vx));
                                 //rex += &format!("(?P<{}>[^,]*?),", vx);
                                 rex += &format!(
                                     r"(?P<{}>(?:[^,)(]|\((?:[^)(]|\((?:[^)(]|\((?:[^)(]|\([^)(]*\))*\))*\))*\))*),",
